@@ -12,16 +12,19 @@ import vlib
 
 LEVEL_TEXT = ('Lean 4 theorems: Noll j -> (n, m) is valid (|m| <= n, n-|m| even, even j <-> cosine/+, odd j <-> sine/-) and a bijection '
               'onto the valid (n, m) (explicit inverse, both round trips, all j >= 1); the literal list-and-negative-index code of '
-              'zernike_index equals the closed form for every j >= 1 (and the row search ceil((-1+sqrt(1+8j))/2)-1 is the Noll row in exact real arithmetic; its float evaluation is compared for every j <= 861); R_n^m(1) = 1 for all n <= 40 and the radial '
-              'parts are orthogonal with norm 1/(2(n+1)) for all n, n\' <= 20 (exact rational tables, decide +kernel); Noll\'s constants '
-              'sqrt(n+1), sqrt(2) give unit mean square (angular integrals of 1, cos^2(m theta), sin^2(m theta) over a period evaluated in Mathlib); the default origin is the mask centroid (first '
-              'moments vanish) for any parity/position; rho = 1 at the farthest masked sample and <= 1 on the mask; values vanish '
-              'outside the mask and depend on the mask only through its support. azimuthal factors of different order and cos vs sin are orthogonal over a period. PARTIAL: |Z| <= 1 without '
-              'normalisation and the polar Fubini step combining radial and angular integrals are not proved; the radial Gram table stops at n = 20.')
+              'zernike_index equals the closed form for every j >= 1 and its row search is the Noll row in exact real arithmetic; '
+              'R_n^m(1) = 1 for all n <= 40; the model\'s mode over R is N * R_n^|m|(rho) * A_m(theta) with N^2 = n+1 or 2(n+1) and '
+              'A_m = 1 / cos(m theta) / sin(m theta); the exact rational Gram table equals the radial integrals of the model\'s '
+              'polynomials (n, n\' <= 20); angular integrals over a period; and hence ORTHONORMALITY of the model\'s modes: the polar '
+              'mean (1/pi) int int Z_j Z_j\' rho drho dtheta is 1 if j = j\' else 0 for all pairs among the first 231 modes; the default '
+              'origin is the mask centroid (first moments vanish) for any parity/position; rho = 1 at a farthest masked sample and '
+              '<= 1 on the mask; values vanish outside the mask (field arithmetic) and depend on the mask only through its support. '
+              'PARTIAL: |Z| <= 1 without normalisation is not proved; orthonormality stops at n = 20 and is stated for the iterated polar '
+              'integral (the polar change of variables to the area mean is not formalised).')
 LEVEL_NOTE = ('Trusted: Lean kernel, float sqrt/cos/sin/atan2 (model run at Float, tolerance 1e-9 x coefficient scale), NumPy semantics of '
-              'np.angle/np.abs/np.max as modelled, generator coverage. Unproven clauses: |Z| <= 1 unnormalised (sampled by the oracle); '
-              'polar Fubini step (disk integral = radial x angular); radial orthogonality beyond n = 20; '
-              'the float sqrt/ceil row search of zernike_index beyond the sampled range of j.')
+              'np.angle/np.abs/np.max as modelled, generator coverage. Known finding KF-C11-nan-outside-mask: the code multiplies by the mask, so '
+              'non-finite coordinates outside the mask (or a one-sample mask) give NaN instead of 0. Unproven clauses: |Z| <= 1 unnormalised '
+              '(sampled by the oracle); orthonormality beyond n = 20; the float sqrt/ceil row search of zernike_index beyond the sampled range of j.')
 TECHNIQUE = 'Lean 4 proof (omega/induction, decide +kernel exact rational tables) + hand model with differential correspondence'
 GEN = []
 OPS = ['C11']
@@ -31,12 +34,12 @@ RULE = ('cases: every Noll index 1..861 (all 41 rows n <= 40) against zernike_in
         'of the real functions); zernike_coordinates on random masks (even/odd sizes, off-centre blobs, weights, explicit shift/rotate); '
         'distinct = canonical (kind, parameters) signature; non-trivial = n >= 2 / mask not symmetric about the array centre')
 TRUSTED = ['libm sqrt/cos/sin/atan2 agree with NumPy to 1e-9', 'np.angle = atan2(imag, real), np.abs = hypot, np.max over r*mask as modelled in Model/Zernike.lean']
-UNPROVEN = ['|Z_j| <= 1 on the unit disk without normalisation (needs |R_n^m| <= 1 on [0,1]); sampled by the oracle on dyadic nodes',
-            'radial orthogonality for 20 < n <= 40 (the exact table checks in Lean but takes ~5 min; not part of the registered build)',
-            'the factorisation of the mean over the unit disk of a product of two modes into (radial integral) x (angular integral)/pi (Fubini in polar '
-            'coordinates) is not formalised: radial_gram and the angular theorems are proved separately; the oracle integrates products of the real '
-            'modes j, j\' <= 66 by exact Gauss-Legendre x uniform-angle quadrature']
-ASSUMPTIONS = ['the quantifier "all Noll indices up to a large bound" is carried for all j >= 1 on the index map and for n <= 40 (j <= 861) on the '
+UNPROVEN = ['|Z_j| <= 1 on the unit disk without normalisation (needs |R_n^m| <= 1 on [0,1]); sampled by the oracle on dyadic nodes and by quadrature',
+            'orthonormality for 20 < n <= 40 (the exact radial table for n <= 40 checks in Lean but takes ~5 min; not part of the registered build)',
+            'that the iterated polar integral (1/pi) int_0^2pi int_0^1 f rho drho dtheta is the area mean over the unit disk (polar change of variables) — '
+            'the oracle integrates products of the real modes j, j\' <= 231 by exact Gauss-Legendre x uniform-angle quadrature in the same polar form']
+ASSUMPTIONS = ['caller-supplied rho/theta are ndarrays (lists raise AttributeError in R for j > 1: input validation, not judged)',
+               'the quantifier "all Noll indices up to a large bound" is carried for all j >= 1 on the index map and for n <= 40 (j <= 861) on the '
                'radial tables; beyond n = 40 the float evaluation of R cancels catastrophically',
                'azimuthal convention as coded: even j -> cos(m theta), odd j -> sin(m theta) with m < 0 (i.e. -sin(|m| theta))']
 
@@ -108,11 +111,21 @@ def generate(rng, tier):
         if k % 7 == 0: rho = [int(x) / 8 for x in rng.integers(0, 13, sh[0] * sh[1])]       # caller coordinates beyond the unit disk
         theta = [int(x) / 4 for x in rng.integers(-13, 14, sh[0] * sh[1])]
         mask = [float(x) for x in (rng.integers(0, 3, sh[0] * sh[1]) * np.array([1.0, 0.5, -2.0])[rng.integers(0, 3, sh[0] * sh[1])])]
-        out.append({'kind': 'zern', 'j': j, 'normalize': bool(k % 2), 'shape': list(sh), 'rho': rho, 'theta': theta, 'mask': mask})
+        c = {'kind': 'zern', 'j': j, 'normalize': bool(k % 2), 'shape': list(sh), 'rho': rho, 'theta': theta, 'mask': mask}
+        if k % 9 == 4 and any(x == 0 for x in mask) and j > 1:
+            # arbitrary caller coordinates: non-finite where the mask is zero (e.g. a polar grid undefined outside the pupil)
+            for i, x in enumerate(mask):
+                if x == 0:
+                    bad = [float('inf'), float('nan'), float('-inf')][int(rng.integers(0, 3))]
+                    if rng.integers(0, 2): c['rho'][i] = bad
+                    else: c['theta'][i] = bad
+            c['bad_outside'] = True
+        out.append(c)
     # ---- orthonormality of the real functions by exact quadrature
     ng = {'quick': 60, 'thorough': 600, 'search': 200}[tier]
     for k in range(ng):
-        j = int(rng.integers(1, 67)); j2 = j if k % 3 == 0 else int(rng.integers(1, 67))
+        top = 67 if k % 4 else 232          # every pair claimed by radial_gram / zernike_orthonormal (n <= 20) is eligible
+        j = int(rng.integers(1, top)); j2 = j if k % 3 == 0 else int(rng.integers(1, top))
         out.append({'kind': 'gram', 'j': j, 'j2': j2})
     # ---- coordinates
     nc = {'quick': 80, 'thorough': 1200, 'search': 300}[tier]
@@ -125,6 +138,11 @@ def generate(rng, tier):
         if k % 6 == 5: c['shift'] = [int(rng.integers(-8, 9)) / 4, int(rng.integers(-8, 9)) / 4]
         if k % 3 == 0: c['j'] = int(rng.integers(1, 37)); c['normalize'] = bool(rng.integers(0, 2))
         out.append(c)
+    for k in range({'quick': 3, 'thorough': 20, 'search': 3}[tier]):
+        sh = (int(rng.integers(3, 8)), int(rng.integers(3, 8)))
+        m = np.zeros(sh); m[int(rng.integers(0, sh[0])), int(rng.integers(0, sh[1]))] = 1.0
+        out.append({'kind': 'coords', 'shape': list(sh), 'mask': [float(x) for x in m.ravel()], 'shift': None, 'rotate': 0.0,
+                    'j': int(rng.integers(2, 12)), 'normalize': True, 'one_sample': True})
     return out
 
 def signature(c):
@@ -146,7 +164,10 @@ def nontrivial(c):
 
 def tags(c):
     k = c['kind']; t = [k]
-    if k == 'zern': t += ['zern:normalized' if c['normalize'] else 'zern:raw', 'zern:n<=20' if c['j'] <= 231 else 'zern:n>20']
+    if k == 'zern':
+        t += ['zern:normalized' if c['normalize'] else 'zern:raw', 'zern:n<=20' if c['j'] <= 231 else 'zern:n>20']
+        if c.get('bad_outside'): t.append('zern:non-finite-coordinates-outside-mask')
+    if k == 'coords' and c.get('one_sample'): t.append('coords:one-sample-mask')
     if k == 'gram': t.append('gram:diag' if c['j'] == c['j2'] else 'gram:offdiag')
     if k == 'coords':
         t.append(f"coords:{'even' if c['shape'][0] % 2 == 0 else 'odd'}x{'even' if c['shape'][1] % 2 == 0 else 'odd'}")
@@ -167,6 +188,10 @@ def _quad(nmax):
     return rho, theta, W
 
 def impl(c):
+    with np.errstate(all='ignore'):
+        return _impl(c)
+
+def _impl(c):
     vlib.import_lentil()
     import lentil, sys
     Z = sys.modules['lentil.zernike']      # `lentil.zernike` the attribute is the function; the module lives in sys.modules
@@ -188,7 +213,7 @@ def impl(c):
             z = lentil.zernike(mask, c['j'], c['normalize'], rho=rho, theta=th)
             zb = lentil.zernike(mask != 0, c['j'], c['normalize'], rho=rho, theta=th)
             return {'values': [float(x) for x in np.asarray(z, dtype=float).ravel()], 'shape': list(np.shape(z)),
-                    'support_only': bool(np.array_equal(np.asarray(z, dtype=float), np.asarray(zb, dtype=float)))}
+                    'support_only': bool(np.array_equal(np.asarray(z, dtype=float), np.asarray(zb, dtype=float), equal_nan=True))}
         if k == 'gram':
             n1, n2 = noll_ref(c['j'])[0], noll_ref(c['j2'])[0]
             rho, theta, W = _quad(max(n1, n2))
@@ -205,11 +230,11 @@ def impl(c):
         rho, theta = Z.zernike_coordinates(mask, **kw)
         rho_b, theta_b = Z.zernike_coordinates(mask != 0, **kw)
         out = {'rho': [float(x) for x in rho.ravel()], 'theta': [float(x) for x in theta.ravel()],
-               'support_only': bool(np.array_equal(rho, rho_b) and np.array_equal(theta, theta_b))}
+               'support_only': bool(np.array_equal(rho, rho_b, equal_nan=True) and np.array_equal(theta, theta_b, equal_nan=True))}
         if 'j' in c and c['shift'] is None and not c['rotate']:
             z = np.asarray(lentil.zernike(mask, c['j'], c['normalize']), dtype=float)
             z2 = np.asarray(lentil.zernike(mask, c['j'], c['normalize'], rho=rho, theta=theta), dtype=float)
-            out['z'] = [float(x) for x in z.ravel()]; out['z_same'] = bool(np.array_equal(z, z2))
+            out['z'] = [float(x) for x in z.ravel()]; out['z_same'] = bool(np.array_equal(z, z2, equal_nan=True))
         return out
     except Exception as e:
         return {'exc': type(e).__name__, 'msg': str(e)[:200]}
@@ -233,6 +258,12 @@ def requests(c, io):
         reqs.append({'op': 'zernike', 'j': c['j'], 'normalize': c['normalize'], 'rho': vlib.fl(io['rho']), 'theta': vlib.fl(io['theta']),
                      'mask': [int(x != 0) for x in c['mask']]})
     return reqs
+
+def _same(a, b, tol):
+    """equal within tol; NaN matches NaN and an infinity matches the same infinity"""
+    if math.isnan(a) or math.isnan(b): return math.isnan(a) and math.isnan(b)
+    if math.isinf(a) or math.isinf(b): return a == b
+    return abs(a - b) <= tol
 
 def _angle_diff(a, b):
     d = (a - b + np.pi) % (2 * np.pi) - np.pi
@@ -276,18 +307,22 @@ def compare(c, io, mo):
         mv = vlib.unfl(m['values'])
         if io['shape'] != c['shape']: return f"zernike returned shape {io['shape']}"
         for i, (a, b) in enumerate(zip(io['values'], mv)):
-            if abs(a - b) > 1e-9 * _zscale(c['j'], c['normalize'], c['rho'][i]): return f"zernike(j={c['j']}) node {i}: impl {a} model {b}"
+            r = c['rho'][i]
+            tol = 1e-9 * _zscale(c['j'], c['normalize'], r) if math.isfinite(r) else 0.0
+            if not _same(a, b, tol): return f"zernike(j={c['j']}) node {i}: impl {a} model {b}"
         return None
     # coords
     rho = vlib.unfl(m['rho']); th = vlib.unfl(m['theta'])
     for i, (a, b) in enumerate(zip(io['rho'], rho)):
-        if abs(a - b) > 1e-9 * (1 + abs(b)): return f'rho[{i}]: impl {a} model {b}'
+        if not _same(a, b, 1e-9 * (1 + abs(b)) if math.isfinite(b) else 0.0): return f'rho[{i}]: impl {a} model {b}'
     for i, (a, b) in enumerate(zip(io['theta'], th)):
-        if io['rho'][i] > 1e-9 and _angle_diff(a, b) > 1e-9: return f'theta[{i}]: impl {a} model {b}'
+        if math.isfinite(io['rho'][i]) and io['rho'][i] > 1e-9 and _angle_diff(a, b) > 1e-9: return f'theta[{i}]: impl {a} model {b}'
     if 'z' in io:
         mv = vlib.unfl(mo[1]['values'])
         for i, (a, b) in enumerate(zip(io['z'], mv)):
-            if abs(a - b) > 1e-9 * _zscale(c['j'], c['normalize'], io['rho'][i]): return f"zernike(mask, j={c['j']}) sample {i}: impl {a} model {b}"
+            r = io['rho'][i]
+            if not _same(a, b, 1e-9 * _zscale(c['j'], c['normalize'], r) if math.isfinite(r) else 0.0):
+                return f"zernike(mask, j={c['j']}) sample {i}: impl {a} model {b}"
     return None
 
 # ------------------------------------------------------------------------------------------ oracle (real code only)
@@ -324,7 +359,9 @@ def oracle(c, io):
         if not io['support_only']: return 'zernike depends on the mask beyond its support'
         for i, v in enumerate(io['values']):
             if c['mask'][i] == 0:
-                if v != 0: return f"zernike(j={c['j']}) is {v} outside the mask"
+                if v != 0:
+                    why = '' if math.isfinite(c['rho'][i]) and math.isfinite(c['theta'][i]) else f" (caller coordinates there: rho={c['rho'][i]}, theta={c['theta'][i]})"
+                    return f"zernike(j={c['j']}) is {v} outside the mask" + why
                 continue
             ref = zern_ref(c['j'], c['normalize'], c['rho'][i], c['theta'][i])
             tol = 1e-9 * _zscale(c['j'], c['normalize'], c['rho'][i])
@@ -340,6 +377,13 @@ def oracle(c, io):
     # coords
     sh = tuple(c['shape']); mask = np.array(c['mask']).reshape(sh) != 0
     rho = np.array(io['rho']).reshape(sh); th = np.array(io['theta']).reshape(sh)
+    if mask.sum() == 1 and c['shift'] is None:
+        # the farthest masked sample is the origin itself: rho cannot be 1 there; the property still demands zeros outside the mask
+        if 'z' in io:
+            z = np.array(io['z']).reshape(sh)
+            if np.any(z[~mask] != 0): return f"zernike(mask, j={c['j']}) is {z[~mask][0]} outside the mask of a one-sample mask (rho = r/0)"
+        if not np.all(np.isfinite(rho)): return 'one-sample mask: rho is not finite (division by the zero maximum radius)'
+        return None
     if not io['support_only']: return 'zernike_coordinates depends on the mask beyond its support'
     ii, jj = np.nonzero(mask)
     if c['shift'] is None:
@@ -371,3 +415,19 @@ def oracle(c, io):
             ref = zern_ref(c['j'], c['normalize'], rho[i, j], th[i, j])
             if abs(z[i, j] - ref) > 1e-9 * _zscale(c['j'], c['normalize'], rho[i, j]): return f"zernike(mask, j={c['j']})[{i},{j}] = {z[i, j]}, textbook {ref}"
     return None
+
+# ------------------------------------------------------------------------------------------ known finding
+KF_NAN = 'KF-C11-nan-outside-mask'
+
+def matches_finding(kf, case, msg):
+    if kf.get('id') != KF_NAN: return False
+    if case.get('kind') == 'zern' and case.get('bad_outside'): return 'outside the mask' in msg and 'caller coordinates there' in msg
+    if case.get('kind') == 'coords' and case.get('one_sample'): return 'one-sample mask' in msg
+    return False
+
+def replay_finding(kf):
+    if kf.get('id') != KF_NAN: return False
+    c = kf['witness']
+    io = impl(c)
+    msg = oracle(c, io) if 'exc' not in io else None
+    return bool(msg and matches_finding(kf, c, msg))
